@@ -579,3 +579,9 @@ package motion
 // C08, cold pixels: with a fixed threshold a pixel enters every diff only through
 // cl(v, T), so two values at or below T are indistinguishable.
 //@ lemma [C08] coldClamp := forall v int, w int, t int, b int :: v <= t && w <= t ==> cl(v, t) == cl(w, t) && dabs(cl(v, t), cl(b, t)) == dabs(cl(w, t), cl(b, t)) && dabs(cl(b, t), cl(v, t)) == dabs(cl(b, t), cl(w, t)) && dwarm(cl(v, t), cl(b, t)) == dwarm(cl(w, t), cl(b, t)) && dwarm(cl(b, t), cl(v, t)) == dwarm(cl(b, t), cl(w, t))
+
+//@ func NewConfig
+//@   mode permissive
+//@   allocates
+//@   ensures result1 == nil ==> result0 != nil
+//@   check [C11] ncalls("DefaultThermalMotion") == 1 && callarg("DefaultThermalMotion", 1, 0) == cameraModel && ncalls("Unmarshal") == 1 && callarg("Unmarshal", 1, 1) == config.ThermalMotionKey
